@@ -1,6 +1,6 @@
 (* C02 correspondence: what the Go harness (harness/rest/verif_c02_test.go) observed on the real REST / BLIP
    surfaces and on the real auth.User objects is re-evaluated here on the model with vm_compute. *)
-From SG Require Export Base.Prelude Base.Bytes C02.Auth C02.ReadDecision C02.Backup.
+From SG Require Export Base.Prelude Base.Bytes C02.Auth C02.ReadDecision C02.Backup C02.Kinds.
 Open Scope N_scope.
 
 (* what a response shows for one (revision, request): status class, whether the revision's own content
@@ -60,6 +60,69 @@ Definition rowobs_eqb (a b : rowobs) : bool :=
   (ro_kind a =? ro_kind b) && Bool.eqb (ro_content a) (ro_content b) &&
   option_eqb (list_eqb N.eqb) (ro_chans a) (ro_chans b).
 
+(* ---------------- request kinds (Kinds.v) ---------------- *)
+(* one revision as seen on the wire.  cls: 0 delivered (a real revision or a stub -- a stub of a tombstone and a
+   tombstone without body look the same), 4 {"missing": rev} entry, otherwise the error status (403 / 404 / 410) *)
+Record aview := mkAV { av_cls : N; av_rev : rid; av_content : bool; av_removed : bool; av_deleted : bool;
+                       av_atts : list N; av_hist : list rid }.
+
+Definition view (a : answer) : aview :=
+  match a with
+  | AFull r b at' dl h => mkAV 0 r (negb (is_nil b)) false dl (map fst at') h
+  | AStub r dl h => mkAV 0 r false (negb dl) dl [] h
+  | AErr c => mkAV c (0, 0) false false false [] []
+  end.
+
+Definition view_entry (e : rid * option answer) : aview :=
+  match snd e with Some a => view a | None => mkAV 4 (fst e) false false false [] [] end.
+
+Definition nsubset (a b : list N) : bool := forallb (fun x => mem x b) a.
+Definition nset_eqb (a b : list N) : bool := nsubset a b && nsubset b a.
+Definition rsubset (a b : list rid) : bool := forallb (fun x => rmem x b) a.
+Definition rset_eqb (a b : list rid) : bool := rsubset a b && rsubset b a.
+
+Definition aview_eqb (a b : aview) : bool :=
+  (av_cls a =? av_cls b) && rid_eqb (av_rev a) (av_rev b) && Bool.eqb (av_content a) (av_content b) &&
+  Bool.eqb (av_removed a) (av_removed b) && Bool.eqb (av_deleted a) (av_deleted b) &&
+  nset_eqb (av_atts a) (av_atts b) && list_eqb rid_eqb (av_hist a) (av_hist b).
+
+(* entries in arbitrary order (open_revs=all walks a map) *)
+Definition avset_eqb (a b : list aview) : bool :=
+  (length a =? length b)%nat && forallb (fun x => existsb (aview_eqb x) b) a && forallb (fun x => existsb (aview_eqb x) a) b.
+
+Inductive kobs :=
+| OAns (l : option (list aview))
+| OAtt (a : att_out)
+| ODiff (m p : list rid)
+| OReply (x : option (list rid))
+| OStatus (s : N) (c : option rid)
+| ODelta (cls : N).
+
+Definition delta_cls (x : delta_out) : N :=
+  match x with
+  | DNil => 0 | DErr => 1 | DMissing => 2 | DSrcTombstone => 3
+  | DRedacted false => 4 | DRedacted true => 5 | DTombstone => 6 | DDelta _ _ _ _ => 7
+  end.
+
+Definition att_out_eqb (a b : att_out) : bool :=
+  match a, b with AttData x, AttData y => x =? y | AttErr x, AttErr y => x =? y | _, _ => false end.
+
+Definition kind_matches (r : resp) (o : kobs) : bool :=
+  match r, o with
+  | ROne a, OAns (Some [v]) => aview_eqb (view a) v
+  | RMany None, OAns None => true
+  | RMany (Some l), OAns (Some vs) => avset_eqb (map view_entry l) vs
+  | RDoc None, OAns None => true
+  | RDoc (Some a), OAns (Some [v]) => aview_eqb (view a) v
+  | RAtt a, OAtt b => att_out_eqb a b
+  | RDiff m p, ODiff m' p' => list_eqb rid_eqb m m' && rset_eqb p p'
+  | RReply None, OReply None => true
+  | RReply (Some p), OReply (Some p') => rset_eqb p p'
+  | RStatus s c, OStatus s' c' => (s =? s') && option_eqb rid_eqb c c'
+  | RDelta x, ODelta c => delta_cls x =? c
+  | _, _ => false
+  end.
+
 Inductive case :=
 | CSee (named : bool) (u : user) (cs : list N) (obs : bool)          (* user.AuthorizeAnyCollectionChannel == nil *)
 | CSeeRole (r : role) (cs : list N) (obs : bool)                     (* role.AuthorizeAnyCollectionChannel == nil *)
@@ -69,7 +132,11 @@ Inductive case :=
 (* channels the revision cache reports for a superseded revision after a cold load from its backup *)
 | CBackup (winner_chans parent_chans : list N) (parent_is_winner : bool) (obs : list N)
 (* attachment names on the document's current revision right after a write *)
-| CStamp (winner_atts new_atts : list N) (new_wins : bool) (obs : list N).
+| CStamp (winner_atts new_atts : list N) (new_wins : bool) (obs : list N)
+(* a request of some kind about one document (None: it does not exist) and what came back *)
+| CKind (named : bool) (u : user) (od : option doc) (k : kind) (obs : kobs)
+(* proveAttachment on a connection after the trace [pre]: Some true a proof came back, Some false 404 *)
+| CProve (v3 named : bool) (u : user) (pre : list pullop) (legacy : list N) (k : N) (obs : option bool).
 
 Definition check (c : case) : bool :=
   match c with
@@ -81,6 +148,9 @@ Definition check (c : case) : bool :=
       list_eqb (option_eqb Bool.eqb) (snd (gate_run named u conn0 ops)) obs
   | CBackup wc pc piw obs => set_eqb (backup_chans wc pc piw) obs
   | CStamp wa na nw obs => set_eqb (stamped_atts wa na nw) obs
+  | CKind named u od k obs => kind_matches (respond named u k od) obs
+  | CProve v3 named u pre legacy k obs =>
+      option_eqb Bool.eqb (Some (prove_serves v3 (c_gate (fst (gate_run named u conn0 pre))) legacy k)) obs
   end.
 
 Definition mismatches (cs : list case) : list N := failing check cs.
